@@ -254,6 +254,23 @@ pub fn check(t: &Trace<'_>, out: &mut CaseOut) -> bool {
                     } else {
                         spec
                     };
+                    // an earlier disconnect() that was cancelled after its DISCONNECT had been handed
+                    // to the session (possibly before any byte was written) is completed by this
+                    // call: the packet is then the earlier request's
+                    let earlier: Vec<&DiscSpec> = t.log.ops[..i]
+                        .iter()
+                        .filter(|o| o.conn == Some(conn) && o.kind == "disconnect" && o.outcome == Outcome::Cancelled)
+                        .filter_map(|o| match &t.log.steps[o.step] {
+                            Step::Disconnect(d) => Some(d),
+                            _ => None,
+                        })
+                        .collect();
+                    let fits = |d: &DiscSpec| *reason == d.reason.unwrap_or(0) && props_match(&d.props.clone().unwrap_or_default(), props);
+                    if !fits(spec) && earlier.iter().any(|d| fits(d)) {
+                        out.count("disconnects_finished_by_a_later_call", 1);
+                        nontrivial = true;
+                        continue;
+                    }
                     let want_reason = spec.reason.unwrap_or(0);
                     let want_props = spec.props.clone().unwrap_or_default();
                     if *reason != want_reason {
